@@ -120,6 +120,8 @@ void ep2_norm_sim(ep2_t *r, const ep2_t *t, int n) {
 		}
 		for (i = 0; i < n; i++) {
 			fp2_null(a[i]);
+		}
+		for (i = 0; i < n; i++) {
 			fp2_new(a[i]);
 			if (ep2_is_infty(t[i])) {
 				/* The identity has z = 0, keep it out of the inversion. */
@@ -154,7 +156,7 @@ void ep2_norm_sim(ep2_t *r, const ep2_t *t, int n) {
 		RLC_THROW(ERR_CAUGHT);
 	}
 	RLC_FINALLY {
-		for (i = 0; i < n; i++) {
+		for (i = 0; a != NULL && i < n; i++) {
 			fp2_free(a[i]);
 		}
 		RLC_FREE(a);
